@@ -7,5 +7,5 @@ CONSTANTS
   Modes = {"default", "csv", "tsv"}
   NLs = {"smart"}
   Rich = 0
-INVARIANTS ConfigIsThisRuns RunStartsFresh CloseOfNonReader SystemSeesFlushed NoExecConfines NoWritesConfines NoReadsConfines DeniedEndsRun TouchedAreOpened FileDelivered CmdDelivered StdoutDelivered FailingWriteFails OneNameOneStream CloseReportsStatus SeqScheduleAllowed LossNotAllowed AttemptIsDenied NullStaysEmpty OperandKinds OneSpelling CrlfEverywhere
+INVARIANTS ConfigIsThisRuns RunStartsFresh CloseOfNonReader SystemSeesFlushed NoExecConfines NoWritesConfines NoReadsConfines DeniedEndsRun TouchedAreOpened FileDelivered CmdDelivered StdoutDelivered FailingWriteFails OneNameOneStream CloseReportsStatus SeqScheduleAllowed LossNotAllowed AttemptIsDenied NullStaysEmpty OperandKinds OneSpelling CrlfEverywhere LostFileKinds CreatedAreOpened
 CHECK_DEADLOCK FALSE
